@@ -45,7 +45,8 @@ Definition add_multiple (arr : list R) (batch : list R) : outcome :=
             let probe := nth (n - Nat.min m n) arr lastc in          (* arr[-min(len(candles), len(arr))] *)
             if (ts probe <=? ts b0) && (ts lastc <=? ts bl) then
               let ov := Z.to_nat (Z.of_nat m - Z.quot (ts bl - ts lastc) 60000) in     (* override_candles *)
-              if (ov =? 0)%nat then StoreErr     (* arr[-0:] would address the whole array; unreachable for 1m-spaced data *)
+              if ((ov =? 0) || (n <? ov))%nat then StoreErr     (* arr[-0:] would address the whole array; more overridden rows than stored
+                                                                   (a store with a gap): numpy refuses the assignment (ValueError) *)
               else StoreOk (firstn (n - ov) arr ++ firstn ov batch ++ skipn ov batch)
             else StoreErr
       end
